@@ -462,18 +462,19 @@ pub fn run_c14(ctx: &Ctx, rng: &mut Rng, tier: Tier, ext_dir: Option<&str>, scri
     }
     // one interpreter, line protocol: "<bits> <minrep> <minlen> <hex;hex>" -> "O <hex> <compiled 0/1> <fullmatch bits>" | "X <exc>:<msg hex>"
     let mut child = Command::new("python3").arg(script).arg(ext).stdin(Stdio::piped()).stdout(Stdio::piped()).stderr(Stdio::piped()).spawn().expect("python3");
-    {
-        let mut si = child.stdin.take().unwrap();
-        for c in &cases {
-            let _ = writeln!(si, "B {} {} {} {}", c.cfg.bits, c.cfg.min_rep, c.cfg.min_len, c.tcs.iter().map(|t| hex(t)).collect::<Vec<_>>().join(";"));
-        }
-        let _ = writeln!(si, "E empty");
-        let _ = writeln!(si, "E minrep 0");
-        let _ = writeln!(si, "E minrep -2");
-        let _ = writeln!(si, "E minlen 0");
-        let _ = writeln!(si, "E minlen -1");
+    let mut si = child.stdin.take().unwrap();
+    let mut input = String::new();
+    for c in &cases {
+        input.push_str(&format!("B {} {} {} {}\n", c.cfg.bits, c.cfg.min_rep, c.cfg.min_len, c.tcs.iter().map(|t| hex(t)).collect::<Vec<_>>().join(";")));
     }
+    input.push_str("E empty\nE minrep 0\nE minrep -2\nE minlen 0\nE minlen -1\n");
+    // write from a second thread: the interpreter answers while it reads, both pipes are bounded
+    let writer = std::thread::spawn(move || {
+        let _ = si.write_all(input.as_bytes());
+        drop(si);
+    });
     let out = child.wait_with_output().expect("python wait");
+    let _ = writer.join();
     let lines: Vec<String> = String::from_utf8_lossy(&out.stdout).lines().map(|s| s.to_string()).collect();
     if lines.len() != cases.len() + 5 {
         o.notes.push(format!("python answered {} of {} requests; stderr: {}", lines.len(), cases.len() + 5, String::from_utf8_lossy(&out.stderr).lines().last().unwrap_or("")));
